@@ -33,7 +33,7 @@ def copy_value(v):
 
 class VMRun:
     __slots__ = ("status", "value", "globals", "exc", "events", "steps", "oob", "calls", "ops",
-                 "callee_stores", "harness", "where", "branches", "depth", "sig")
+                 "callee_stores", "harness", "where", "branches", "depth", "sig", "passed", "frame_checks")
 
 
 def run_vm(compiled, fname, args, globals_init, obs, budget):
@@ -49,9 +49,11 @@ def run_vm(compiled, fname, args, globals_init, obs, budget):
         vm.SetGlobal(k, copy_value(v))
     obs.reset(budget)
     nslapi.set_observer(obs)
+    passed = {k: copy_value(v) for k, v in args.items()}
+    r.passed = passed
     try:
         try:
-            r.value = vm.Invoke(fname, **{k: copy_value(v) for k, v in args.items()})
+            r.value = vm.Invoke(fname, **passed)
             r.status = "ok"
         except vmobs.VerifStepLimit:
             r.status = "nonterminating"
@@ -80,6 +82,7 @@ def run_vm(compiled, fname, args, globals_init, obs, budget):
     r.harness = list(obs.harness_errors)
     r.branches = obs.branches
     r.depth = obs.max_depth
+    r.frame_checks = obs.frame_checks
     return r
 
 
@@ -141,8 +144,10 @@ UNDEF_EVENTS = ("read-of-undefined-value", "operand-not-a-value", "read-of-undec
 
 
 def check_program(R, obs, name, module, fname, inputs, family, require_accept=True, optimize=False, tol=1e-9,
-                  extra_events=(), source=None):
-    """Compile `module` with the real compiler, run `fname` on every input on the real VM under the
+                  extra_events=(), source=None, family_of=None):
+    """(`fname` may be a list of (function name, inputs) pairs with inputs=None: one compilation, many calls;
+    family_of(fname) then gives the mechanism family per function.)
+    Compile `module` with the real compiler, run `fname` on every input on the real VM under the
     observer, compare with RefSem.  Records violations in R.  Returns a dict:
     source, accepted, runnable, compiled (diff.Compiled), runs [(RefRun|None, VMRun|None) per input], bad (count)."""
     src = source if source is not None else print_module(module)
@@ -167,6 +172,18 @@ def check_program(R, obs, name, module, fname, inputs, family, require_accept=Tr
         return out
     out["runnable"] = True
     gnames = [n for _, n in module.globals]
+    calls = fname if inputs is None else [(fname, inputs)]
+    for fname_, inputs_ in calls:
+        _run_calls(R, obs, name, module, comp, src, fname_, inputs_, family, optimize, tol, extra_events, gnames, out,
+                   family_of=family_of)
+    for o in obs.ops_run:
+        R.add_to("opcodes", o)
+    return out
+
+
+def _run_calls(R, obs, name, module, comp, src, fname, inputs, family, optimize, tol, extra_events, gnames, out, family_of=None):
+    if family_of is not None:
+        family = family_of(fname)
     for args, gl in inputs:
         ref = run_ref(module, fname, args, gl)
         R.evaluations += 1
@@ -201,9 +218,6 @@ def check_program(R, obs, name, module, fname, inputs, family, require_accept=Tr
                          "expected": {"value": ref.value, "globals": ref.globals},
                          "observed": {"status": vm.status, "value": vm.value, "globals": vm.globals, "exc": vm.exc},
                          "events": vm.events})
-    for o in obs.ops_run:
-        R.add_to("opcodes", o)
-    return out
 
 
 def replay_program(case):
